@@ -179,6 +179,59 @@ def decide_random(idx, seed0):
     return res
 
 
+def expected_name(p):
+    return "inputs/robot_%d_w%d_l%d_r%d_rb%d_lb%d_tb%d_lt%d%s.py" % (p["seed"], p["width"], p["length"], p["max_reward"], p["_k"]["p_robot"], p["_k"]["p_light"],
+                                                                   p["_k"]["p_tile"], p["_k"]["p_loose"], "_force_down" if p["force_down"] else "")
+
+
+def decide_twice(idx, seed0):
+    """The generator run several times in ONE directory: the same parameters twice, then a parameter set whose name extends the first
+    one by a digit (lt3 -> lt31, seed 7 -> seed 71): afterwards the directory holds exactly the two files these parameter sets name,
+    and each holds the board of the set its name states."""
+    rg = monitors.mods()["roberta_generator"]
+    cr = monitors.mods()["conditionalrewards"]
+    rng = games.case_rng(seed0, PID, "TWICE", idx)
+    ks = {q: rng.randint(1, 99) for q in PARAMS}
+    ks["p_loose"] = rng.randint(1, 9)
+    p = dict(seed=rng.randrange(1000), width=rng.randint(2, 6), length=rng.randint(2, 6), max_reward=rng.choice([1, 6, 30]), force_down=rng.random() < 0.5)
+    for q in PARAMS:
+        p[q] = ks[q] / 100
+    p["_k"] = dict(ks)
+    p2 = dict(p)
+    p2["_k"] = dict(ks)
+    if idx % 2:
+        p2["_k"]["p_loose"] = ks["p_loose"] * 10 + rng.randint(0, 9)
+        p2["p_loose"] = p2["_k"]["p_loose"] / 100
+    else:
+        p2["seed"] = p["seed"] * 10 + rng.randint(0, 9)
+    problems = []
+    with gc.Scratch() as sc_:
+        for q in (p, p, p2):
+            argv = gc.gen_argv(q["seed"], q["width"], q["length"], q["p_robot"], q["p_light"], q["p_tile"], q["p_loose"], q["max_reward"], q["force_down"])
+            exc, _, _ = gc.call_main(rg, argv)
+            if exc is not None:
+                problems.append({"problem": "generator raised %s" % type(exc).__name__})
+        files = [f.replace(os.sep, "/") for f in sc_.listing()]
+        want = sorted({expected_name(p), expected_name(p2)})
+        if sorted(files) != want:
+            problems.append({"problem": "after three runs the directory does not hold exactly the files the two parameter sets name", "files": files, "expected": want})
+        else:
+            for q in (p, p2):
+                try:
+                    g = cr.read_dict_from_file(expected_name(q))
+                    mv, rw, lo = rg.gen_rnd_board(q["seed"], q["length"], q["width"], q["p_loose"], q["max_reward"], q["force_down"])
+                    flat = [x for row in rw for x in row]
+                    if g["game_a"]["rewards"][:len(flat)] != flat:
+                        problems.append({"problem": "the file %s does not hold the board of the parameters its name states" % expected_name(q)})
+                except Exception as e:
+                    problems.append({"problem": "file cannot be read back: %r" % e})
+    monitors.MON.count("c17.names", 2)
+    res = {"idx": idx, "verdict": "held", "tags": ["TWICE"], "key": "twice:%d:%s" % (idx, sorted(ks.items())), "nontrivial": True, "stats": {"repeated_run_dirs": 1}}
+    if problems:
+        res.update(verdict="violated", what=problems[0]["problem"], witness=problems[:3], case={"twice": idx, "seed": seed0})
+    return res
+
+
 def decide_manual(idx, seed0):
     mb = monitors.mods()["manual"]
     rng = games.case_rng(seed0, PID, "MANUAL", idx)
@@ -201,11 +254,17 @@ def decide_manual(idx, seed0):
         rewards[rng.randrange(L)][rng.randrange(W)] = mr
     loose = [[rng.choice([0, 1]) for _ in range(W)] for _ in range(L)]
     ks = [rng.randint(1, 99) for _ in range(3)]
+    given = [k / 100 for k in ks]
+    if idx % 6 == 3:
+        # a probability of exactly one, written the way a hand-made call may write it: 1, 1.0 or True (the entry point has no range check)
+        j = rng.randrange(3)
+        ks[j] = 100
+        given[j] = rng.choice([1, True, 1.0])
     with gc.Scratch() as sc_:
         with monitors.fs_record() as fs:
             try:
-                mb.create_sg_from_board(moves=moves, rewards=rewards, loose_tiles=loose, prob_robot_break=ks[0] / 100,
-                                           prob_light_break=ks[1] / 100, prob_tile_break=ks[2] / 100)
+                mb.create_sg_from_board(moves=moves, rewards=rewards, loose_tiles=loose, prob_robot_break=given[0],
+                                           prob_light_break=given[1], prob_tile_break=given[2])
                 exc = None
             except Exception as e:
                 exc = e
@@ -236,6 +295,7 @@ def plan(tier, seed):
     b += harness.split("KPAIRS", 99, 25)
     b += harness.split("RND", 200 if q else 4000, 50 if q else 250)
     b += harness.split("MANUAL", 60 if q else 1000, 30 if q else 100)
+    b += harness.split("TWICE", 40 if q else 600, 20 if q else 100)
     return b
 
 
@@ -250,6 +310,8 @@ def run_batch(batch):
             yield decide_pairs(idx)
         elif c == "RND":
             yield decide_random(idx, batch["seed"])
+        elif c == "TWICE":
+            yield decide_twice(idx, batch["seed"])
         else:
             yield decide_manual(idx, batch["seed"])
 
@@ -260,6 +322,8 @@ def finish(agg):
 
 def replay(case):
     monitors.install(step_meter=False)
+    if "twice" in case:
+        return decide_twice(case["twice"], case.get("seed", 0))
     if "k" in case:
         param, k, sp = case["k"]
         return decide_k(PARAMS.index(param) * 198 + (k - 1) * 2 + sp)
